@@ -359,9 +359,9 @@ def gen_bulk_item(rng, kind, err_as_string):
     return {op: d}
 
 
-def gen_bulk_response(rng, profile):
+def gen_bulk_response(rng, profile, n=None):
     """profile: ok | errors | errors-mixed | hidden-shard-fail | hidden-not-found"""
-    n = rng.choice((1, 2, 3, 3, 5, 8))
+    n = n or rng.choice((1, 2, 3, 3, 5, 8))
     err_as_string = rng.random() < 0.25
     kinds = []
     for _ in range(n):
